@@ -277,7 +277,7 @@ int op_conn(int id, int n, char **t) {
         int rc; size_t consumed;
         if (t[0][2] == 'q') { g_live_req = buf; g_live_req_len = al; rc = htp_connp_req_data(cp, &tv, buf, al); consumed = htp_connp_req_data_consumed(cp); g_live_req = NULL; }
         else { g_live_res = buf; g_live_res_len = al; rc = htp_connp_res_data(cp, &tv, buf, al); consumed = htp_connp_res_data_consumed(cp); g_live_res = NULL; }
-        printf("rc=%d consumed=%zu ev=[%s]", rc, consumed, h->ev ? h->ev : "");
+        printf("rc=%d consumed=%zu len=%ld ev=[%s]", rc, consumed, al, h->ev ? h->ev : "");
         /* the library may keep pointers into the chunk only during the call */
         free(buf);
         return 1;
@@ -287,7 +287,7 @@ int op_conn(int id, int n, char **t) {
         int rc; size_t consumed;
         if (t[0][2] == 'q') { rc = htp_connp_req_data(cp, &tv, NULL, k); consumed = htp_connp_req_data_consumed(cp); }
         else { rc = htp_connp_res_data(cp, &tv, NULL, k); consumed = htp_connp_res_data_consumed(cp); }
-        printf("rc=%d consumed=%zu ev=[%s]", rc, consumed, h->ev ? h->ev : "");
+        printf("rc=%d consumed=%zu len=%zu ev=[%s]", rc, consumed, k, h->ev ? h->ev : "");
         return 1;
     }
     if (!strcmp(t[0], "close") && n == 1) {
@@ -312,7 +312,7 @@ int op_conn(int id, int n, char **t) {
             int rc_; size_t cons_; \
             if (isreq) { g_live_req = cb_; g_live_req_len = (plen); rc_ = htp_connp_req_data(cp, &tv, cb_, (plen)); cons_ = htp_connp_req_data_consumed(cp); g_live_req = NULL; } \
             else { g_live_res = cb_; g_live_res_len = (plen); rc_ = htp_connp_res_data(cp, &tv, cb_, (plen)); cons_ = htp_connp_res_data_consumed(cp); g_live_res = NULL; } \
-            printf("%s%s:rc=%d:consumed=%zu:ev=[%s]", first ? "" : " ;; ", (isreq) ? "req" : "res", rc_, cons_, h->ev ? h->ev : ""); \
+            printf("%s%s:rc=%d:consumed=%zu:len=%zu:ev=[%s]", first ? "" : " ;; ", (isreq) ? "req" : "res", rc_, cons_, (size_t) (plen), h->ev ? h->ev : ""); \
             first = 0; \
             unsigned char **oth_ = (isreq) ? &in_other : &out_other; size_t *ol_ = (isreq) ? &in_len : &out_len; \
             unsigned char *keep_ = NULL; size_t kl_ = 0; \
@@ -326,7 +326,7 @@ int op_conn(int id, int n, char **t) {
                 int rc_; size_t cons_;
                 if (it[1] == '>') { rc_ = htp_connp_req_data(cp, &tv, NULL, k); cons_ = htp_connp_req_data_consumed(cp); }
                 else { rc_ = htp_connp_res_data(cp, &tv, NULL, k); cons_ = htp_connp_res_data_consumed(cp); }
-                printf("%s%s:rc=%d:consumed=%zu:ev=[%s]", first ? "" : " ;; ", it[1] == '>' ? "reqgap" : "resgap", rc_, cons_, h->ev ? h->ev : "");
+                printf("%s%s:rc=%d:consumed=%zu:len=%zu:ev=[%s]", first ? "" : " ;; ", it[1] == '>' ? "reqgap" : "resgap", rc_, cons_, k, h->ev ? h->ev : "");
                 first = 0;
                 continue;
             }
